@@ -153,6 +153,7 @@ SHARED = {
     "C14": " Added (round 4): who may vacate a slot (C02 R2.2) is evaluated here. Added: no spurious queue entries (R14.4): every enqueue in the crate only on the flag's false->true transition, and marking loops only over occupied slots (a full map built by FromIterator, C07 R7.6); the budget licence of a self-wake is decided with C13's budget-cell analysis.",
     "C15": " Added (round 4): every function named len / is_empty / is_terminated on the collection types (inherent or from any trait) is an observer; who may vacate (C02 R2.2). Added (round 3): size_hint is the fourth observer (C17 R17.3 evaluated here). Added: try-push forwarders have no side effects of their own (R15.2), every group of an unbounded collection has capacity >= 1 (R15.5).",
     "C16": " Added (round 4): the guard rules cover every function that polls an upstream (not only poll_next); out-of-turn outputs are held only in the counted heap (C02 R2.5). The guard is decided by finite-grid entailment (a pull is admitted only when running + parked < capacity) with the exact-shape rule as fallback; C15 R15.3 (len = running + parked) is evaluated in this check.",
+    "C18": " Added (round 4): every function of the unbounded types that appends a freshly built group obeys the growth discipline (not only push); a group leaves the vector only where its own poll reported Ready(None) (shared with C11).",
     "C17": " Added (round 3): the index discipline of the ordered collections (C04 R4.1) is evaluated here -- a lost item falsifies the lower bound. Handles match, Option::and_then and map/unwrap_or forms of the bound computation; C15 R15.3 is evaluated in this check.",
 }
 
